@@ -52,9 +52,21 @@ type tracer struct {
 	noReaderTx  bool
 	freedPages  int
 	steady      bool
+	// fault injection (engine fault): fail the faultAt-th I/O call (1-based) issued during op faultOp
+	faultOp   int
+	faultAt   int
+	ioCount   int
+	curOp     int
+	faultKind string // kind of the call that was failed
+	ioKinds   []string
+	lastMetaWritten bool
+	quietUntil      int
 }
 
 var curTracer *tracer
+
+// faultPlan, when set, is (op index, I/O call index) for the next runTrace
+var faultPlan []int
 
 func (t *tracer) emit(line, want string) {
 	t.lines = append(t.lines, line)
@@ -131,11 +143,20 @@ func (t *tracer) countFree(l string) {
 }
 
 func (t *tracer) replayObj(upto int) map[string]any {
-	return map[string]any{"options": t.o.String(), "opts": t.o, "ops": opLines(t.ops[:min(upto+1, len(t.ops))])}
+	m := map[string]any{"options": t.o.String(), "opts": t.o, "ops": opLines(t.ops[:min(upto+1, len(t.ops))])}
+	if t.faultOp >= 0 {
+		m["fault"] = []int{t.faultOp, t.faultAt}
+		m["ops"] = opLines(t.ops)
+	}
+	return m
 }
 
 // afterCommitted: decode the file, emit the model checks, run monitors that need the new version.
 func (t *tracer) afterCommitted(i int) {
+	if i < t.quietUntil {
+		t.cur = nil // fault runs: the history before the targeted commit was checked by the dry run
+		return
+	}
 	v, dec, err := decodeVersion(t.e.Path)
 	if err != nil {
 		t.rep.violation("C12", "monitor", "decode-failed", fmt.Sprintf("after op %d the independent v2 reader cannot decode the file: %v", i, dec), t.replayObj(i))
@@ -193,7 +214,13 @@ func (t *tracer) checkReaders(i int) {
 func runTrace(rep *Report, dir, tag string, o optSet, ops []Op) *tracer {
 	path := filepath.Join(dir, tag+".db")
 	_ = os.Remove(path)
-	t := &tracer{o: o, rep: rep, ops: ops, readers: map[string]*versionInfo{}}
+	t := &tracer{o: o, rep: rep, ops: ops, readers: map[string]*versionInfo{}, faultOp: -1}
+	if faultPlan != nil {
+		t.faultOp, t.faultAt = faultPlan[0], faultPlan[1]
+		if len(faultPlan) > 2 {
+			t.quietUntil = faultPlan[2]
+		}
+	}
 	curTracer = t
 	defer func() { curTracer = nil }()
 	t.e = NewExec(path, o.boltOptions())
@@ -232,11 +259,23 @@ func runTrace(rep *Report, dir, tag string, o optSet, ops []Op) *tracer {
 	}
 	defer t.e.CloseAll()
 	for i, op := range ops {
+		t.curOp = i
 		var rtx uint64
 		if op.K == "endr" && t.e.R[op.Tx] != nil {
 			rtx = uint64(t.e.R[op.Tx].ID())
 		}
 		t.buf = nil
+		if i == t.faultOp && t.cur == nil && t.e.W != nil {
+			// (the writer is open: the file still holds the last committed state)
+			if v, _, err := decodeVersion(t.e.Path); err == nil {
+				t.cur = v
+				for _, rid := range sortedKeys(t.readers) {
+					if t.readers[rid].used == nil && t.readers[rid].txid == v.txid {
+						t.readers[rid].used = v.used
+					}
+				}
+			}
+		}
 		var r string
 		if op.K == "reopen" {
 			t.e.CloseAll()
@@ -257,6 +296,7 @@ func runTrace(rep *Report, dir, tag string, o optSet, ops []Op) *tracer {
 		case "beginw":
 			if r == "ok" {
 				t.emit("beginW", "ok")
+				t.emit("fl", flLine(t.e.DB)) // the allocator right after ReleasePendingPages
 				t.noReaderTx = len(t.readers) == 0
 				t.freedPages = 0
 				// reclaimOK (1): with no reader open, every page released by earlier transactions
@@ -312,9 +352,7 @@ func runTrace(rep *Report, dir, tag string, o optSet, ops []Op) *tracer {
 					}
 				}
 			} else {
-				t.emit("failedCommit", "ok")
-				t.checkWrites(i, false)
-				t.emit("fl", flLine(t.e.DB))
+				t.afterFailedCommit(i, r)
 			}
 			t.checkReaders(i)
 		default:
@@ -327,6 +365,116 @@ func runTrace(rep *Report, dir, tag string, o optSet, ops []Op) *tracer {
 		}
 	}
 	return t
+}
+
+// afterFailedCommit: C08 monitors (failedCommitClean) and the model events for a commit that
+// returned an error.
+func (t *tracer) afterFailedCommit(i int, r string) {
+	t.rep.count("failed-commit:" + t.faultKind)
+	t.checkWrites(i, false)
+	if t.faultKind == "mmap" {
+		// the mapping is gone: Begin must fail promptly with ErrInvalidMapping; usable after reopen
+		if _, err := t.e.DB.Begin(false); err == nil || errName(err) != "err:ErrInvalidMapping" {
+			t.rep.violation("C08", "monitor", "after-map-failure-begin", fmt.Sprintf("op %d: after an injected map failure Begin gives %v (expected ErrInvalidMapping)", i, err), t.replayObj(i))
+		}
+		t.emit("failedCommit", "ok")
+		t.e.CloseAll()
+		t.readers = map[string]*versionInfo{}
+		if err := t.e.Open(); err != nil {
+			t.rep.violation("C08", "monitor", "reopen-after-failed-commit", fmt.Sprintf("op %d: reopen after the failed commit fails: %v", i, err), t.replayObj(i))
+			t.failed = "reopen"
+			return
+		}
+		kind := "array"
+		if t.o.Freelist == bolt.FreelistMapType {
+			kind = "hashmap"
+		}
+		t.emit("reopen "+kind, "ok")
+		t.buf = nil
+	} else if t.faultKind == "final-sync" {
+		// the exception: the meta page was written; the transaction must be entirely present or
+		// entirely absent, identically in memory and on disk. With a shared page cache it is
+		// present: the model sees an ordinary commit.
+		t.emit("commit", "ok")
+		now := "dump:" + hashStr(dumpDB(t.e.DB))
+		t.afterCommitted(i)
+		if t.cur != nil {
+			t.hwms = append(t.hwms, t.cur.hwm)
+			if now != t.cur.dump {
+				t.rep.violation("C08", "monitor", "memory-vs-disk-after-final-sync-failure", fmt.Sprintf("op %d: after the failed final sync the process sees %s but the file holds %s", i, now, t.cur.dump), t.replayObj(i))
+			}
+		}
+		t.probeNextWriter(i)
+		return
+	} else {
+		t.emit("failedCommit", "ok")
+	}
+	// the database presents a committed state: the previous one (or, for the exception, the new one)
+	prev := ""
+	if t.cur != nil {
+		prev = t.cur.dump
+	}
+	now := "dump:" + hashStr(dumpDB(t.e.DB))
+	v, dec, err := decodeVersion(t.e.Path)
+	if err != nil {
+		t.rep.violation("C08", "monitor", "decode-after-failed-commit", fmt.Sprintf("op %d: file not decodable after a failed commit: %v", i, dec), t.replayObj(i))
+		return
+	}
+	if now != prev {
+		t.rep.violation("C08", "monitor", "failed-commit-visible:"+t.faultKind, fmt.Sprintf("op %d: commit failed (%s at I/O call %d) yet the content changed: %s -> %s", i, t.faultKind, t.faultAt, prev, now), t.replayObj(i))
+	} else if v.dump != prev {
+		t.rep.violation("C08", "monitor", "failed-commit-on-disk:"+t.faultKind, fmt.Sprintf("op %d: commit failed (%s) yet the file content changed", i, t.faultKind), t.replayObj(i))
+	}
+	t.cur = v
+	if dec[6] != "errors -" || !strings.HasPrefix(dec[5], "accounting ok=true") {
+		t.rep.violation("C08", "monitor", "accounting-after-failed-commit:"+t.faultKind, fmt.Sprintf("op %d: %s | %s", i, truncate(dec[5], 200), truncate(dec[6], 200)), t.replayObj(i))
+	}
+	// in-memory allocator = what the file says (free + pending = ids on the freelist page / unreferenced pages)
+	free, pend := t.e.DB.VerifFreelistState()
+	var ids []uint64
+	ids = append(ids, free...)
+	for _, p := range pend {
+		ids = append(ids, p[1])
+	}
+	sortU64(ids)
+	if dec[3] != "flpage -" && "free "+u64s(ids) != dec[4] {
+		t.rep.violation("C08", "monitor", "allocator-after-failed-commit:"+t.faultKind, fmt.Sprintf("op %d: after the failed commit the in-memory free+pending ids differ from the committed freelist page", i), t.replayObj(i))
+	}
+	for _, id := range ids {
+		if v.used[id] {
+			t.rep.violation("C08", "monitor", "allocator-after-failed-commit:"+t.faultKind, fmt.Sprintf("op %d: page %d is free/pending in memory but referenced by the committed state", i, id), t.replayObj(i))
+			break
+		}
+	}
+	t.emit("used", usedLine(v))
+	t.emit("fl", flLine(t.e.DB))
+	t.probeNextWriter(i)
+}
+
+// probeNextWriter: the next write transaction proceeds without blocking.
+func (t *tracer) probeNextWriter(i int) {
+	done := make(chan error, 1)
+	go func() {
+		tx, err := t.e.DB.Begin(true)
+		if err == nil {
+			err = tx.Rollback()
+		}
+		done <- err
+	}()
+	select {
+	case err := <-done:
+		if err != nil {
+			t.rep.violation("C08", "monitor", "next-writer-fails", fmt.Sprintf("op %d: Begin(true) after the failed commit: %v", i, err), t.replayObj(i))
+		} else {
+			// the probe is a write transaction of its own (its begin releases pending pages)
+			t.emit("beginW", "ok")
+			t.emit("rollback", "ok")
+		}
+	case <-time.After(5 * time.Second):
+		t.rep.violation("C08", "monitor", "next-writer-blocks", fmt.Sprintf("op %d: Begin(true) blocks after the failed commit (%s)", i, t.faultKind), t.replayObj(i))
+		t.failed = "blocked"
+	}
+	t.buf = nil // the probe's ReleasePendingPages has no alloc/free events
 }
 
 func installHooks() {
@@ -346,6 +494,17 @@ func installHooks() {
 		t := curTracer
 		if t == nil {
 			return nil
+		}
+		if t.faultOp >= 0 && t.curOp == t.faultOp {
+			t.ioCount++
+			t.ioKinds = append(t.ioKinds, kind)
+			if t.ioCount == t.faultAt {
+				t.faultKind = kind
+				if kind == "sync" && len(t.writes) > 0 && t.writes[len(t.writes)-1][0] < 2*int64(db.VerifPageSize()) {
+					t.faultKind = "final-sync"
+				}
+				return fmt.Errorf("injected %s failure", kind)
+			}
 		}
 		if kind == "write" {
 			t.writes = append(t.writes, [2]int64{off, int64(len(data))})
@@ -440,8 +599,10 @@ func checkTrace(rep *Report, t *tracer) {
 		rep.Disagree++
 		kind := strings.Fields(t.lines[i])[0]
 		what := fmt.Sprintf("event %d `%s`: the protocol model answers %q, the implementation trace requires %q", i, truncate(t.lines[i], 60), truncate(got[i], 300), truncate(t.want[i], 300))
-		rep.violation(*flagProp, "correspondence", "store-model-vs-impl:"+kind, what,
-			map[string]any{"options": t.o.String(), "opts": t.o, "ops": opLines(t.ops), "model_events": t.lines[:i+1]})
+		rp := t.replayObj(len(t.ops))
+		rp["ops"] = opLines(t.ops)
+		rp["model_events"] = t.lines[:i+1]
+		rep.violation(*flagProp, "correspondence", "store-model-vs-impl:"+kind, what, rp)
 		break
 	}
 }
